@@ -245,7 +245,7 @@ func runCheck(o *options) int {
 	if !o.noNative {
 		for _, h := range hs {
 			if builds[h.Pkg] == nil {
-				builds[h.Pkg] = startNativeBuild(o.repo, ld.build, ld.ovJS, h.Pkg)
+				builds[h.Pkg] = startNativeBuild(o.repo, ld.build, ld.ovJS, h.Pkg, pp.Race)
 			}
 		}
 	}
@@ -463,9 +463,8 @@ func nativeConfirms(c *Candidate, r *BatchResult) bool {
 	case "panic":
 		return r.Panic != "" && !r.TimedOut
 	case "write":
-		// sequential witness of a write to shared state: confirmed by the race replay harness when
-		// one exists; otherwise the interpreter's store trace is the evidence.
-		return true
+		// the native replay runs the operation in two goroutines under the race detector
+		return strings.Contains(r.Panic, "DATA RACE")
 	}
 	return false
 }
@@ -613,7 +612,7 @@ func runReplay(o *options) int {
 		fatal("no plan for %s", o.prop)
 	}
 	ld := prepare(o, pp, nil, false)
-	nb := startNativeBuild(o.repo, ld.build, ld.ovJS, cf.Pkg)
+	nb := startNativeBuild(o.repo, ld.build, ld.ovJS, cf.Pkg, pp.Race)
 	res, err := nb.runBatch(ld.build, []BatchCase{{ID: "replay", Harness: cf.Fn, Vals: cf.Vals}}, 60*time.Second)
 	if err != nil {
 		fatal("%v", err)
